@@ -97,7 +97,7 @@ def run(prop, tier, seed, known):
     rng = random.Random(seed)
     from ._tag import Fails
     fails = Fails(prop, (('textbook formula', ('C16', 'C04')), ('vmeasure != nce', ('C16',)), ('swap of reference', ('C06',)),
-                         ('label renaming', ('C08', 'C16')), ('is cut at', ('C12',)), ('out of [0, 1]', ('C01',)), ('above 1', ('C01',)),
+                         ('label renaming', ('C08', 'C16')), ('is not symmetric', ('C06',)), ('is cut at', ('C12',)), ('out of [0, 1]', ('C01',)), ('above 1', ('C01',)),
                          ('perfect score', ('C02', 'C16'))))
     n = 0
     t0 = time.time()
@@ -170,6 +170,22 @@ def run(prop, tier, seed, known):
             if len(set(fa)) > 1 and len(fa) > len(set(fa)):
                 if not (close(p['pairwise'], (1.0, 1.0, 1.0)) and close(p['rand'], 1.0) and close(p['ari'], 1.0) and close(p['v'], (1.0, 1.0, 1.0))):
                     fails.append('identical annotations do not get the perfect score: %s' % (p,))
+            # C08: renaming the labels of ONE side of two identical annotations (also when there is a single label)
+            one = rng.random() < 0.4
+            rl4 = [rl[0]] * len(rl) if one else rl
+            ren2 = {'a': 'm', 'b': 'n', 'c': 'o'}
+            p0 = metrics(ri, rl4, ri, list(rl4), size, beta)
+            p1 = metrics(ri, rl4, ri, [ren2[l.lower()] for l in rl4], size, beta)
+            if not all(close(p0[k], p1[k]) for k in p0):
+                fails.append('scores of identical annotations change under label renaming of the estimate only: %s vs %s (labels %s)' % (p0, p1, rl4))
+            # C06: one side gives every frame its own label (all singletons), the other groups frames
+            nfr = int(end / size)
+            if nfr <= 12:
+                si = [[k * size, (k + 1) * size] for k in range(nfr)]
+                sl = ['s%d' % k for k in range(nfr)]
+                ga, gb = metrics(si, sl, ei, el, size, 1.0), metrics(ei, el, si, sl, size, 1.0)
+                if not (close(ga['ari'], gb['ari']) and close(ga['rand'], gb['rand']) and close(ga['mi3'], gb['mi3']) and close(ga['pairwise'][0], gb['pairwise'][1])):
+                    fails.append('swap of reference and estimate is not symmetric when one side is all singletons: %s vs %s' % (ga, gb))
             if len(fails) > 6:
                 break
     bounded = [dict(name='segment.pairwise / rand_index / ari / mutual_information / nce / vmeasure vs textbook formulas on the frame contingency table; '
